@@ -5,7 +5,9 @@
 //!  (d) protobuf encode / decode (templates, policy sets with links)
 //!  (e) equal authorization responses original vs round-tripped, 3 random worlds
 //!  (f) a JSON policy accepted by from_json evaluates like the Cedar text it prints as
-//! plus hand-built EST JSON (every operator key, odd-but-accepted shapes, rejected shapes).
+//! plus hand-built EST JSON (every operator key, odd-but-accepted shapes, rejected shapes; own / wrong / swapped slots in
+//! every scope-constraint form); every accepted JSON template is also LINKED (distinct slot values) and the link compared
+//! with its own to_json -> from_json round trip and with the same link of the template's printed Cedar text.
 //! Model lines: `(est to <json>)` = Rust's from_json, `(est of <expr>)` = Rust's to_json (as JSON values,
 //! object keys sorted), `(estpol to <json>)` = Rust's policy-level from_json.
 use crate::c01::gen_scope;
